@@ -72,6 +72,10 @@ Clauses(T) ==
        \cup (IF ToSet(T.obs.aliases) = ExpectedAliases(T) THEN {} ELSE {"aliases"})
        \cup (IF ToSet(T.obs.consts) = ToSet(T.consts) THEN {} ELSE {"consts"})
        \cup (IF Len(T.obs.other) = 0 THEN {} ELSE {"extra-declarations"})
+       \* a hint must NAME a type: an unqualified name is only meaningful when the same class body declares it (inline
+       \* structures) or it is one of the generic string/array classes the stub imports
+       \cup (IF \A j \in 1..Len(T.obs.scopes) : ToSet(T.obs.scopes[j].bare) \subseteq ToSet(T.obs.scopes[j].inline) \cup {"CharArray", "WcharArray"}
+             THEN {} ELSE {"unresolvable-hint"})
 
 VARIABLE tid
 Init == tid = 1
